@@ -18,8 +18,8 @@ T = {
   note="Partial: unproved rules and compile-time evaluation are decided by the differential search only; float round-off of arithmetic rewrites is outside the integer reference semantics.",
   technique="Coq rule-soundness proofs + validated optimiser outputs + rewrite-configuration differential on the implementation"),
  "C02": dict(
-  text="Machine-checked frame theorem (Coq, closed): for every tree accepted by a Gallina transcription of the signature checker (src/check.rs) that satisfies the stored-signature invariant, for EVERY semantics of the primitives, every function table, every stack and every failure point, the interpreter model (src/run.rs exec_impl, run_prim_mod routing modifiers, try, fill, calls, arrays, under-stack instructions) consumes exactly the counted arguments, produces the counted outputs, leaves everything beneath untouched on the stack and on the hidden context stack, and restores fill stack, fill boundaries and call depth; the run-time frame check can never fire. Tied every run: (V) the checker model equals Node::sig() on every function body/operand/root of compiled corpus programs and the invariant is evaluated on them; (C) the interpreter model equals the real interpreter on generated integer programs; (search) sentinel experiment on the implementation.",
-  note="Not carried by the theorem: primitives whose Rust body pops/pushes differently from its table entry (tie/search only); `by`, switch, loops and iterating modifiers are run by the checker model but their interpreter case is outside the proved fragment (the model returns Unk / the invariant excludes them; measured share reported in the evidence); u16 truncation of signatures.",
+  text="Machine-checked frame theorem (Coq, closed): for every tree accepted by a Gallina transcription of the signature checker (src/check.rs) that satisfies the stored-signature invariant, for EVERY semantics of the primitives, every function table, every stack and every failure point, the interpreter model (src/run.rs exec_impl; run_prim_mod's routing modifiers incl. by; try, case, fill, switch with a scalar selector, calls, arrays, constant globals, under-stack instructions; the iterating modifiers rows/each/inventory/reduce/scan/fold/table/tuples/group/partition/stencil/reduce-content, repeat and repeat-with-inverse with the array side abstracted by oracles that decide how often the operand runs and on what) consumes exactly the counted arguments, produces the counted outputs, leaves everything beneath untouched on the stack and on the hidden context stack, and restores fill stack, fill boundaries and call depth; the run-time frame check can never fire. Tied every run: (V) the checker model equals Node::sig() on every function body/operand/root of compiled corpus programs and the invariant is evaluated on them; (C) the interpreter model equals the real interpreter on generated integer programs; (search) sentinel experiment on the implementation.",
+  note="Not carried by the theorem: primitives whose Rust body pops/pushes differently from its table entry, and that the iterating modifiers' Rust bodies push exactly sa values and pop so results per step (tie/search only); do-loops, dynamic functions, array-selector switches, iterated operands that touch the under stack and fork/bracket operands with under effects are outside the proved fragment (the model returns Unk / the invariant excludes them; measured share reported in the evidence: 286 of 369 corpus programs fully inside); u16 truncation of signatures.",
   technique="Coq proof by simulation between the checker's counters and the real stack (induction on fuel), validated on compiler output + interpreter correspondence + sentinel search"),
  "C03": dict(
   text="Verified validator for inverses: an inductive relation of exactly-invertible templates with a decision procedure proved sound, left/right inverse laws proved by induction on the derivation over the reference semantics, signature duality checked on every exported (F, un F, un un F, anti F) of the real compiler for the catalogue to depth 4, plus the inverse laws searched directly on the implementation.",
@@ -54,7 +54,7 @@ T = {
   note="Layout (multi-line, alignment, comments) and name-to-glyph resolution have no theorem.",
   technique="Coq adjacency proofs + validated compile equality + formatter search over all configurations"),
  "C11": dict(
-  text="Machine-checked (Coq, closed): if the first function of try fails at ANY point (arbitrary primitive semantics and failure points), the handler starts in exactly the original state - same stack (error value slipped in beneath the arguments iff asked for), same hidden context stack, fill stack, fill boundaries and call depth - so try behaves like the handler alone; at every failure point the values beneath a checked function's arguments are intact. Proved on the interpreter model of exec_clean_stack/try_; tied by running generated try programs with injected failures on model and implementation; searched by comparing try with the handler alone (sentinels, hidden-stack depths, inside fill/dip/nested try) and REPL-style sessions.",
+  text="Machine-checked (Coq, closed): if the first function of try fails at ANY point (arbitrary primitive semantics and failure points), the handler starts in exactly the original state - same stack (error value slipped in beneath the arguments iff asked for), same hidden context stack, fill stack, fill boundaries and call depth - so try behaves like the handler alone; at every failure point the values beneath a checked function's arguments are intact. Proved on the interpreter model of exec_clean_stack/try_ with F ranging over every modelled construct (nested through rows/each/reduce/repeat/fill/switch/calls with the array side abstract); tied by running generated try programs with injected failures on model and implementation; searched by comparing try with the handler alone (sentinels, hidden-stack depths, inside fill/dip/nested try) and REPL-style sessions.",
   note="One handler; chained handlers, pattern/case and unmodelled scoped state (recur, memo, channels) are search only; errors raised through `case` pass through a plain try by design.",
   technique="Coq proof on the interpreter model (frame theorem + try rollback) + interpreter correspondence + failure-injection search"),
  "C12": dict(
@@ -75,7 +75,7 @@ T = {
   technique="Coq proof of ordering/equality/hash laws + model/implementation correspondence + law search"),
  "C16": dict(
   text="Machine-checked refinement (Coq, closed): the open-addressing MapKeys table (probe loops with tombstone look-ahead, growth re-inserting every cell, load factor) refines an insertion-ordered association list for EVERY hash function and every history of insert/remove/get/has/length; tied by comparing the full concrete table state after every step of real histories with the model instantiated with the real hashes; row operations, join and map construction by correspondence and exhaustive/random history search against an association list.",
-  note="Premises: key equality is an equivalence respected by the hash (C15), no key equal to the sentinels; key coercion and fix-stack are search only.",
+  note="Premises: key equality is an equivalence respected by the hash (C15); keys one of whose elements is bit-identical to a placeholder cell value are outside the statement (the code cannot tell them from empty/tombstone cells); key coercion and fix-stack are search only.",
   technique="Coq refinement proof + per-step state correspondence with real hashes + exhaustive history search"),
  "C17": dict(
   text="Coq model of the .uasm framing (to_uasm and the section-splitting cascade of from_uasm with its trims and line iterators) with the round-trip theorem under its (necessary) premise, refutation witnesses confirmed on the implementation, and an executable model of the value<->JSON (un)tagging tied to serde on every run; run-behaviour equality of original and re-read assemblies is searched on corpus and generated programs.",
@@ -83,7 +83,7 @@ T = {
   technique="Coq framing proofs + serde correspondence + round-trip-and-run search"),
  "C18": dict(
   text="Machine-checked round-trip theorems over all inputs for bits (|n|<2^53), scalar base (given sufficient row length), UTF-8 in both directions, UTF-16, every integer byte format wider than one byte in either endianness, and the width selection and element casts of `binary`, about Gallina models tied byte for byte to the real encoders and decoders on every run; round trips of all codecs (incl. repr, number printing, json, csv, compress) searched on the implementation.",
-  note="binary's container layout is covered by correspondence, not by a structural theorem; float-cast laws are premises checked by the tie; repr/json/csv/compress/float printing are search only.",
+  note="binary's container (header, shape, size validation, payload) round trip is proved for all 64-bit patterns under the size invariant every array constructor enforces; the f32 cast model is tied bit for bit (NaN payloads, subnormals); repr/json/csv/compress/float printing are search only.",
   technique="Coq codec proofs + byte-level encoder/decoder correspondence + round-trip search"),
  "C19": dict(
   text="Machine-checked (Coq, closed): the lexer's position bookkeeping computes the functional specification of a byte offset (line, column, character index) for every input within the u16/u32 limits on every control path of the tokeniser abstracted as consume/rewind/emit actions; make_span's asserts hold; tokens are ordered and non-overlapping; span merging preserves validity. Every span reported by lexer, parser, compiler, language server and formatter is checked on every run against the same specification evaluated in Coq (tie) and at volume in Rust (search).",
